@@ -131,6 +131,15 @@ func (env *Env) lookupIdent(name string) (SV, bool) {
 	if name == "nil" {
 		return SV{Typ: tNil, T: []Term{"0"}}, true
 	}
+	if (name == "rangepos" || name == "rangelen") && env.fc != nil {
+		if id, ok := env.fc.rangeIter(); ok {
+			if name == "rangepos" {
+				return mathInt(env.fc.ghostGet(env.st, "iterPos", SInt, id)), true
+			}
+			env.vc.declUF("iterLen", []Sort{SInt}, SInt)
+			return mathInt(mkApp("iterLen", id)), true
+		}
+	}
 	if env.fc != nil && !env.noFc {
 		if gv, ok := env.fc.unitCtx().ghostVars[name]; ok {
 			t := env.fc.ghostGet(env.st, "var."+name, gv.Sort, "0")
@@ -633,6 +642,32 @@ func (env *Env) evalCall(x *ECall) SV {
 	case "chanClosed":
 		argn(1)
 		return mathBool(env.fc.ghostGet(env.st, "chanClosed", SBool, env.eval(x.Args[0]).one()))
+	case "rangekey":
+		// rangekey(k): the k-th key of the (single) map range loop of this function
+		argn(1)
+		id, ok := env.fc.rangeIter()
+		if !ok {
+			env.fail("rangekey: the function has no map range loop")
+		}
+		env.vc.declUF("iterKey", []Sort{SInt, SInt}, SInt)
+		return mathInt(mkApp("iterKey", id, env.evalInt(x.Args[0])))
+	case "has":
+		// has(m, k): key k is present in map m
+		argn(2)
+		m := env.eval(x.Args[0])
+		k := env.eval(x.Args[1])
+		if m.Typ == nil {
+			env.fail("has: not a map")
+		}
+		if _, ok := m.Typ.Underlying().(*types.Map); !ok {
+			env.fail("has: not a map")
+		}
+		dom, _, _, _ := env.fc.mapCols(m.Typ)
+		return mathBool(mkSel(mkSel(env.vc.colGet(env.st, dom, SArr2Bool), m.one()), k.T[0]))
+	case "mapLen":
+		argn(1)
+		m := env.eval(x.Args[0])
+		return mathInt(env.fc.ghostGet(env.st, "mapLen", SInt, m.one()))
 	case "onceDone":
 		// onceDone(x.f): the sync.Once stored in field f of x has fired
 		argn(1)
@@ -908,6 +943,19 @@ func (fc *FnCtx) resolveLocal(name string, at *ssa.BasicBlock, atInstr ssa.Instr
 		}
 	}
 	return SV{}, false
+}
+
+// rangeIter: the iterator id of the unique map range loop already translated.
+func (fc *FnCtx) rangeIter() (Term, bool) {
+	var found Term
+	n := 0
+	for r := range fc.rangeMap {
+		if v, ok := fc.vals[r]; ok {
+			found = v.one()
+			n++
+		}
+	}
+	return found, n == 1
 }
 
 func instrBefore(a, b ssa.Instruction) bool {
